@@ -117,7 +117,7 @@ def run(ctx, res):
                 'SQLite query, JSON, Parquet, Feather, ORC, and (c) SQLite text columns with a case-insensitive collation; for every case the table is split at a random cut, and permuted with duplicated rows: result(whole) must equal result(part 1) + result(part 2) '
                 'and result(permuted + duplicated); typed cases are also compared with the Engine model (column coercion) and the Spec; distinct = distinct case; non-trivial = split with both parts non-empty')
     known = set(ctx.known)
-    cases = [gen_typed_case(ctx.rng) for _ in range(ctx.scale(60, 1500))] + [gen_canon_case(ctx.rng) for _ in range(ctx.scale(30, 600))] + [gen_collation_case(ctx.rng) for _ in range(ctx.scale(12, 200))]
+    cases = [gen_typed_case(ctx.rng) for _ in range(ctx.scale(60, 1500))] + [gen_canon_case(ctx.rng) for _ in range(ctx.scale(30, 600))] + [gen_collation_case(ctx.rng) for _ in range(ctx.scale(12, 200))] + [mapcase.gen_words_case(ctx.rng) for _ in range(ctx.scale(16, 200))]
     cases += [c for c in (mapcase.gen_core_case(ctx.rng, hard=ctx.rng.random() < 0.5, joins=False) for _ in range(ctx.scale(40, 1200))) if len(c['sources']) == 1]
     batch = family.Batch(ctx)
     whole = batch.run(cases)
